@@ -25,12 +25,12 @@ PY_KEYWORDS = ['lambda', 'def', 'if', 'raise', 'del', 'import', 'return', 'elif'
 IPYTHON = ["svg", "png", "jpeg", "html", "javascript", "markdown", "latex"]
 
 PLAIN_IDS = ['Foo', 'Bar', 'Baz', 'Pose3', 'Cal3', 'Key', 'Values', 'Graph', 'Factor', 'Noise',
-             'Rot2', 'Camera', 'Test', 'MyClass', 'Other']
+             'Rot2', 'Camera', 'Test', 'MyClass', 'Other', 'Wheel_Odometry', 'is_set_up']
 ADVERSARIAL_IDS = ['constant', 'classy', 'int_', 'This2', 'T1', 'Tt', 'virtualize', 'statics',
                    'pairwise', 'enumerate', 'doubled', 'x', 'a', 'A', 'tT', 'TT', 'voidp',
                    'template_', 'typedefd', 'std_', 'operators', 'namespace_', 'ssize_t', 'dd',
                    'sizes', 'uint64', 'Vector3', 'Point2d', 'stringy']
-NS_IDS = ['gtsam', 'ns1', 'ns2', 'inner', 'detail', 'a', 'b', 'geo', 'T', 'io']
+NS_IDS = ['gtsam', 'ns1', 'ns2', 'inner', 'detail', 'a', 'b', 'geo', 'T', 'io', 'robot_nav']
 TPARAMS = ['T', 'U', 'V', 'POSE', 'POINT', 'Tt', 'a', 'CAL', 'K']
 ARG_IDS = ['x', 'y', 'z', 'key', 'value', 'pose', 'name', 'tol', 'n', 'a', 'b', 's', 'other',
            'T_', 'flag', 'serialized']
@@ -67,6 +67,8 @@ class Profile:
         self.typedef_of_enumerated = False   # typedefs whose arguments repeat an enumerated instantiation (instantiator checks only)
         self.member_param_values = False     # class instantiation values spelled like a member's own template parameter
         self.fwd_of_defined = False          # forward declaration of a class defined in the same scope (parser checks only)
+        self.p_keyword_arg = 0.0             # argument names that are Python keywords (legal C++ identifiers)
+        self.qualified_typedefs = False      # typedef targets written with their namespace path (instantiator checks only)
         self.dup_values = False              # repeated entries in one instantiation list (instantiator checks only)
         self.same_name_values = False  # instantiation values with one unqualified name in two namespaces (instantiator checks only)
         self.layout_defaults = False   # defaults with inner runs of blanks / line breaks (parser checks only)
@@ -212,7 +214,14 @@ class Gen:
         else:
             for _ in range(n):
                 t = self.any_type(self.p.max_type_depth, tparams, this_ok)
-                out.append(['arg', t, self.fresh(used, ARG_IDS), None])
+                nm = None
+                if self.p.p_keyword_arg and r.random() < self.p.p_keyword_arg:
+                    kw = r.choice(['lambda', 'from', 'in', 'is', 'as', 'with', 'pass', 'None'])
+                    if kw not in used:
+                        nm = kw
+                        used.add(kw)
+                        self.count('argument_named_like_a_python_keyword')
+                out.append(['arg', t, nm or self.fresh(used, ARG_IDS), None])
             if n and not tparams and not this_ok:
                 pool.append([tuple(a) for a in out])
         if dflt and n and r.random() < self.p.p_default:
@@ -357,7 +366,7 @@ class Gen:
         name = self.ident(PLAIN_IDS + ['Kind', 'Color', 'Mode']) if used_names is None \
             else self.fresh(used_names, PLAIN_IDS + ['Kind', 'Color', 'Mode'])
         return ('enum', r.choice(['enum', 'enum class', 'enum struct']), name,
-                [self.fresh(used, ['A', 'B', 'Red', 'Green', 'Dog', 'Cat', 'x', 'NONE']) for _ in range(n)])
+                [self.fresh(used, ['A', 'B', 'Red', 'Green', 'Dog', 'Cat', 'x', 'NONE', 'None', 'pass', 'True']) for _ in range(n)])
 
     def klass(self, used_names):
         r = self.r
@@ -382,6 +391,22 @@ class Gen:
             base = ('bt', self.templated_type(2, tp)[:4] + (False, ''))
         self.class_member_names = {'method': [], 'static': []}
         members = [self.member(name, tp) for _ in range(r.randint(0, self.p.max_members))]
+        if r.random() < 0.12:
+            # the unary and the binary form of one operator symbol in one class (operator-() and operator-(T)), or two
+            # call operators: distinct declarations that share their symbol
+            sym = r.choice(['+', '-', '-', '()'])
+            rt = self.plain_type(tp, True)
+            c, p = self.quals()
+            at = ('ty', rt[1], c, p, rt[4])
+            if sym == '()':
+                members += [('op', '()', self.ret(tp, True), [('arg', self.any_type(1, tp, True), 'i', None)], True),
+                            ('op', '()', self.ret(tp, True), [('arg', self.any_type(1, tp, True), 'i', None),
+                                                             ('arg', self.any_type(1, tp, True), 'j', None)], True)]
+            else:
+                pair = [('op', sym, ('r1', rt), [], True), ('op', sym, ('r1', rt), [('arg', at, 'rhs', None)], True)]
+                r.shuffle(pair)
+                members += pair
+            self.count('operators_sharing_a_symbol')
         if self.p.member_param_values and t is not None:
             inner = [n for m in members if m[0] in ('ctor', 'method', 'static') and m[1] is not None for n in m[1][1]]
             lists = [l for l in t[2] if l]
@@ -430,7 +455,14 @@ class Gen:
             return f
         if x < 0.58 and depth < self.p.max_ns_depth:
             self.count('namespace')
-            return ('ns', r.choice(NS_IDS), self.content(depth + 1))
+            nm = r.choice(NS_IDS)
+            stack = self.__dict__.setdefault('ns_path', [])
+            stack.append(nm)
+            try:
+                body = self.content(depth + 1)
+            finally:
+                stack.pop()
+            return ('ns', nm, body)
         if x < 0.66:
             self.count('enum')
             return self.enum(used_names)
@@ -497,7 +529,12 @@ class Gen:
                         v = r.choice(l)
                         params.append(('ty', ('tn', list(v[1]), v[2], []), False, '', v[2] in BASIC and not v[1]))
                     self.count('typedef_of_enumerated')
-            res.append(('typedef', ('tt', [], name, params, False, ''), self.fresh(used, PLAIN_IDS + ['Alias', 'TD'])))
+            qual = []
+            if self.p.qualified_typedefs and kind != 'fwd' and r.random() < 0.6:
+                qual = list(self.__dict__.get('ns_path', []))       # the target spelled with its full namespace path
+                if qual:
+                    self.count('typedef_target_qualified_%d' % min(len(qual), 3))
+            res.append(('typedef', ('tt', qual, name, params, False, ''), self.fresh(used, PLAIN_IDS + ['Alias', 'TD'])))
         if self.p.fwd_of_defined:
             # `class X;` next to the definition of X in the same scope (before or after it)
             for c in [d for d in res if d[0] == 'class']:
